@@ -715,6 +715,30 @@ func baseBytes(rel string) ([]byte, error) {
 	return b, nil
 }
 
+// libraryGoroutines counts the goroutines, other than the caller's, whose stack contains a frame of
+// the library under test.
+func libraryGoroutines() (int, string) {
+	buf := make([]byte, 1<<20)
+	buf = buf[:runtime.Stack(buf, true)]
+	n, where := 0, ""
+	for i, g := range strings.Split(string(buf), "\n\n") {
+		if i == 0 { // the calling goroutine comes first
+			continue
+		}
+		if k := strings.Index(g, "github.com/go-text/typesetting/"); k >= 0 {
+			n++
+			if where == "" {
+				line := g[k:]
+				if e := strings.IndexByte(line, '\n'); e > 0 {
+					line = line[:e]
+				}
+				where = line
+			}
+		}
+	}
+	return n, where
+}
+
 // runData evaluates the oracle on one input. It never fails the test itself.
 func runData(data []byte) outcome {
 	startWatchdog()
@@ -731,8 +755,13 @@ func runData(data []byte) outcome {
 			time.Sleep(2 * time.Millisecond)
 		}
 		if g := runtime.NumGoroutine(); g > g0 {
-			out.Finding = &Finding{Kind: "goroutine", Step: "*", Site: "goroutine-left-behind", Msg: "goroutines left behind",
-				Raw: fmt.Sprintf("%d goroutines before the case, %d after", g0, g)}
+			// the process-wide count also moves for reasons that are not the library's (the fuzzing
+			// engine, the test runtime, this harness's watchdog): only a goroutine still running
+			// library code is a finding
+			if n, where := libraryGoroutines(); n > 0 {
+				out.Finding = &Finding{Kind: "goroutine", Step: "*", Site: "goroutine-left-behind", Msg: "goroutines left behind",
+					Raw: fmt.Sprintf("%d goroutines before the case, %d after; %d still in library code: %s", g0, g, n, where)}
+			}
 		}
 	}
 	if out.Finding == nil && wall > slowLimit {
